@@ -92,6 +92,30 @@ def run(tier, seed):
                 chk.violation(f"registration result does not report exactly what the authenticator data says ({fmt})", f"reg-fields {fmt}",
                               {"entry": "verify_registration_response", "scenario": s.describe(), "impl": il[:500], "expected": exp[:500]})
         chk.sample({"format": fmt, "kind": kind, "flags": s.flags, "count": s.count, "cred_id_len": len(s.cred_id)})
+    # SafetyNet ceremonies whose attestation and verification fall on opposite sides of a daylight-saving switch of the server's time zone (5 seconds apart)
+    import os, time as _time, calendar
+    saved_tz = os.environ.get("TZ")
+    try:
+        for tz, sw in (("CET-1CEST,M3.5.0,M10.5.0/3", (2024, 10, 27, 1, 0, 0)), ("CET-1CEST,M3.5.0,M10.5.0/3", (2024, 3, 31, 1, 0, 0)), ("EST5EDT,M3.2.0,M11.1.0", (2024, 11, 3, 6, 0, 0)),
+                       ("EST5EDT,M3.2.0,M11.1.0", (2024, 3, 10, 7, 0, 0)), ("UTC", (2024, 10, 27, 1, 0, 0))):
+            os.environ["TZ"] = tz
+            _time.tzset()
+            X = calendar.timegm(sw + (0, 0, 0))
+            for now, age in ((X + 2, 5), (X + 3, 9), (X - 1, 3), (X + 3602, 5)):
+                s = regsim.RScn("android-safetynet", "ES256-P256")
+                s.now = now
+                s.n_inter = 1
+                s.k["sn_timestamp"] = (now - age) * 1000
+                s.k["leaf_nb"], s.k["leaf_na"] = now - regsim.DAY, now + regsim.DAY
+                s.k["pki_kw"] = dict(root_nb=now - 1000 * regsim.DAY, root_na=now + 1000 * regsim.DAY, inter_nb=now - 100 * regsim.DAY, inter_na=now + 100 * regsim.DAY)
+                pd, reg = regsim.build(s)
+                B.run_case(regrun.policy_of(pd), reg, "dict", "accept", f"conformant/android-safetynet across a daylight-saving switch TZ={tz.split(',')[0]}", scn=s)
+    finally:
+        if saved_tz is None:
+            os.environ.pop("TZ", None)
+        else:
+            os.environ["TZ"] = saved_tz
+        _time.tzset()
     # every TCG vendor id
     for v in TCG_VENDORS:
         s = regsim.RScn("tpm", "RS256", "RS256")
